@@ -518,6 +518,89 @@ def h4_objstm(timeout=300, part=None, **kw):
                          timeout, concretize=conc, part=part, int_lo=0, int_hi=max(lens.values()) + 1)
 
 
+# ---- faults in the encryption dictionary (the document opens with the empty user password, so the handler is fully initialised)
+ENC_ID = b"0123456789abcdef"
+
+
+def _rc4(key, data):
+    S, j, out = list(range(256)), 0, bytearray()
+    for i in range(256):
+        j = (j + S[i] + key[i % len(key)]) % 256
+        S[i], S[j] = S[j], S[i]
+    i = j = 0
+    for c in data:
+        i = (i + 1) % 256
+        j = (j + S[i]) % 256
+        S[i], S[j] = S[j], S[i]
+        out.append(c ^ S[(S[i] + S[j]) % 256])
+    return bytes(out)
+
+
+def enc_dict(rev):
+    """standard security handler dictionary for empty user and owner passwords (ISO 32000-1 Algorithms 2-5)"""
+    from hashlib import md5
+    PAD = (b"(\xbfN^Nu\x8aAd\x00NV\xff\xfa\x01\x08" b"..\x00\xb6\xd0h>\x80/\x0c\xa9\xfedSiz")
+    n, P = (5 if rev == 2 else 16), -44
+    h = md5(PAD).digest()
+    if rev >= 3:
+        for _ in range(50):
+            h = md5(h).digest()
+    okey = h[:n]
+    O = _rc4(okey, PAD)
+    if rev >= 3:
+        for i in range(1, 20):
+            O = _rc4(bytes(c ^ i for c in okey), O)
+    key = md5(PAD + O + (P % 2 ** 32).to_bytes(4, "little") + ENC_ID).digest()
+    if rev >= 3:
+        for _ in range(50):
+            key = md5(key[:n]).digest()
+    key = key[:n]
+    if rev == 2:
+        U = _rc4(key, PAD)
+    else:
+        x = _rc4(key, md5(PAD + ENC_ID).digest())
+        for i in range(1, 20):
+            x = _rc4(bytes(c ^ i for c in key), x)
+        U = x + bytes(16)
+    d = {"Filter": "Standard", "V": 1 if rev == 2 else (4 if rev == 4 else 2), "R": rev, "O": O, "U": U, "P": P, "Length": n * 8}
+    if rev == 4:
+        d.update({"CF": {"StdCF": {"CFM": "V2", "AuthEvent": "DocOpen", "Length": 16}}, "StmF": "StdCF", "StrF": "StdCF", "EncryptMetadata": True})
+    return d
+
+
+def encrypted_doc(rev, fault=None):
+    objs = seed_objects()
+    objs[30] = enc_dict(rev)
+    if fault:
+        apply_fault(objs, fault[0], fault[1])
+    data = pdfgen.build(objs)
+    return data.replace(b"/Root 1 0 R", b"/Root 1 0 R /Encrypt 30 0 R /ID [<%s> <%s>]" % (ENC_ID.hex().encode(), ENC_ID.hex().encode()))
+
+
+def h4_encrypt(timeout=300, part=None, **kw):
+    """every entry (nested ones too) of the encryption dictionary of an RC4 40-bit (R2), 128-bit (R3) and crypt-filter (R4) document replaced by a value of another type or removed"""
+    SITES = {rev: sites({30: enc_dict(rev)}, 3) for rev in (2, 3, 4)}
+
+    def fn(ex):
+        rev = (2, 3, 4)[ex.choice(3, "rev")]
+        S = SITES[rev]
+        si = ex.choice(len(S), "site")
+        ri = ex.choice(len(REPLACEMENTS), "kind")
+        try:
+            data = encrypted_doc(rev, (S[si], REPLACEMENTS[ri]))
+        except Exception:
+            raise symx.Abort()
+        r = run_extract(data)
+        ex.require(r is None, "R%d encryption dictionary, entry %s replaced by %s: %s" % (rev, "/".join(map(str, S[si][1:])), REPLACEMENTS[ri], r), rev=rev, site=list(S[si]), kind=REPLACEMENTS[ri])
+
+    def conc(m, info):
+        return {"what": "encrypt", "rev": info["rev"], "site": info["site"], "kind": info["kind"]}
+    from pdfminer import high_level
+    return core.run_symx("H4_faults", fn, [high_level.extract_text], {"document": "the 8-object seed document with a standard-security-handler dictionary (R2 / R3 / R4, empty passwords) and /ID",
+                                                                       "faults": "%d kinds at every entry of the dictionary (%s sites)" % (len(REPLACEMENTS), [len(v) for v in SITES.values()])},
+                         timeout, concretize=conc, part=part)
+
+
 # ---- faults inside a content stream: operands of every operator kind, entries of an inline image dictionary
 CONTENT_TOKENS = [
     b"q", b"1", b"0", b"0", b"1", b"5", b"5", b"cm", b"2", b"w", b"[3 1]", b"0", b"d", b"1", b"J", b"1", b"j", b"4", b"M", b"/GS0", b"gs", b"/Perceptual", b"ri", b"1", b"i",
@@ -692,6 +775,9 @@ def replay(harness, inp):
         apply_fault(objs, tuple(inp["site"]), inp["kind"])
         r = run_extract(pdfgen.build(objs), entry=inp.get("entry", "text"))
         return None if r is None else "seed document %d with object %d entry %s replaced by %s: %s" % (inp.get("seed", 1), inp["site"][0], "/".join(map(str, inp["site"][1:])), inp["kind"], r)
+    if what == "encrypt":
+        r = run_extract(encrypted_doc(inp["rev"], (tuple(inp["site"]), inp["kind"])))
+        return None if r is None else "R%d encryption dictionary with entry %s replaced by %s: %s" % (inp["rev"], "/".join(map(str, inp["site"][1:])), inp["kind"], r)
     if what == "content":
         content, desc = content_fault(inp["kind"], inp["i"], inp["j"])
         r = run_extract(content_doc(content))
@@ -734,6 +820,7 @@ def jobs(tier):
         J.append(Job("H4_truncate:seed2:%d" % k, "h4_truncate", {"seed": 2, "part": [k, 4, 6]}, 300, "H4_faults"))
     for k in range(2):
         J.append(Job("H4_objstm:%d" % k, "h4_objstm", {"part": [k, 2, 5]}, 300, "H4_faults"))
+    J.append(Job("H4_encrypt", "h4_encrypt", {}, 300, "H4_faults"))
     for k in range(2):
         J.append(Job("H5_content:%d" % k, "h5_content", {"part": [k, 2, 4]}, 300, "H5_content"))
     if tier != "quick":
